@@ -25,7 +25,12 @@ META = dict(
                "giving the broker its backend / middlewares / formatter / tasks only after the Receiver was constructed, a fifth of all "
                "cases putting the broker OBJECT (a minimal AsyncBroker subclass, or one overriding startup / shutdown around super()) "
                "through its life cycle - startup / shutdown / startup before the first message, shutdown() while messages are being "
-               "executed / sent, between two sends on one kicker, middlewares with startup / shutdown hooks of their own -, must produce a "
+               "executed / sent, between two sends on one kicker, middlewares with startup / shutdown hooks of their own -, a tenth of the sends failing with one of the exception shapes real "
+               "clients raise from kick / dumps (errno-style OSError family, KeyError(int), no / bytes / tuple / None args, non-ASCII text, "
+               "UnicodeEncodeError, exception groups, classes with raising __str__ / __eq__, falsy, unhashable, with cause chains), sends "
+               "made while the caller handles another exception, and a seventh of the receive cases holding the SimpleRetryMiddleware "
+               "taskiq ships (its on_error hook printed as the function of the result it was observed to be; retry-control labels "
+               "arriving as bool / int / float / str / absent in every wire form), must produce a "
                "global log that is an interleaving of the model's sequences (compared in Coq); a Python oracle re-checks the "
                "statement on the real log.",
     level_note="Hooks that raise abort kiq / callback (FCrash) - modelled and covered by the correspondence; the once/order "
